@@ -577,14 +577,25 @@ class SArr:
         out = kwargs.pop("out", None)
         kwargs.pop("casting", None)
         kwargs.pop("dtype", None)
+        where = kwargs.pop("where", True)
+        if where is not True and out is None:
+            raise core.Unsupported("ufunc where= without out= (uninitialised result elements)")
         if out is not None:
             tgt = out[0] if isinstance(out, tuple) else out
             if not isinstance(tgt, SArr):
                 raise core.Unsupported("ufunc out= is not a symbolic array")
+            if isinstance(tgt, Shared):
+                raise SharedWrite("ufunc out= writes into a block the task does not own")
             # inputs that alias the output are read before it is overwritten
             inputs = tuple(SArr(x.shape, x._at, x.dtype, x.log, x.kind, x.struct) if x is tgt else x for x in inputs)
             res = inputs[0].__array_ufunc__(ufunc, method, *inputs, **kwargs) if isinstance(inputs[0], SArr) else \
                 next(x for x in inputs if isinstance(x, SArr)).__array_ufunc__(ufunc, method, *inputs, **kwargs)
+            if where is not True:
+                # elements where the mask is false keep what the output held
+                old = SArr(tgt.shape, tgt._at, tgt.dtype)
+                w_ = where if isinstance(where, SArr) else SArr((), lambda idx, c=bool(where): z3.BoolVal(c))
+                res, oldb, wb = res.broadcast_to(tgt.shape), old, w_.broadcast_to(tgt.shape)
+                res = SArr(tgt.shape, lambda idx, r=res, o=oldb, m=wb: z3.If(_as_bool(m._at(idx)), r._at(idx), o._at(idx)))
             tgt._at, tgt.shape, tgt.struct = res._at, res.shape, None
             return tgt
         if method == "accumulate":
@@ -623,6 +634,46 @@ class SArr:
 
     def __repr__(self):
         return f"SArr(shape={self.shape})"
+
+
+def _as_bool(t):
+    return t if z3.is_bool(t) else t != 0
+
+
+class SharedWrite(Exception):
+    """a block function wrote into an array it received (or an alias of it) instead of a private copy"""
+
+
+class Shared(SArr):
+    """A block as a task receives it: other tasks and collections hold the same buffer.  copy() gives a private mutable
+    array; view() / np.ma.masked_array(copy=False) give aliases; writing into the block or an alias raises SharedWrite."""
+
+    masked = False
+    owndata = True
+
+    @property
+    def flags(self):
+        import types
+
+        return types.SimpleNamespace(owndata=self.owndata, writeable=True)
+
+    def copy(self, *a, **k):
+        return MArr(self.shape, self._at, self.dtype, self.log)
+
+    def view(self, *a, **k):
+        out = Shared(self.shape, self._at, self.dtype, self.log, self.kind, self.struct)
+        out.owndata = False
+        out.masked = self.masked or any(getattr(x, "__name__", "") == "MaskedArray" for x in a)
+        return out
+
+    def __setitem__(self, index, value):
+        raise SharedWrite("item assignment into a block the task does not own")
+
+
+def shared(a, masked=False, owndata=True):
+    out = Shared(a.shape, a._at, a.dtype, a.log, a.kind, a.struct)
+    out.masked, out.owndata = masked, owndata
+    return out
 
 
 def _ADD(x, y):
